@@ -39,6 +39,8 @@ def fixture(spec):
     if spec not in _fix:
         if spec[0] == 'gen':
             _fix[spec] = make_generated(spec[1], spec[2] if len(spec) > 2 else 'tree')
+            if len(spec) > 3 and spec[3] == 'badver':
+                _fix[spec] = make_badver(_fix[spec])
         else:
             with open(os.path.join(core.REPO, spec[1]), 'rb') as f:
                 _fix[spec] = {'data': f.read()}
@@ -114,6 +116,20 @@ def make_generated(seed, kind):
     return {'data': data}
 
 
+def make_badver(fx):
+    """The same file with the version of one unit (not the last) replaced by one the library does not support: every query that has to
+    parse that unit raises, every other query must keep answering exactly as on a fresh object (error paths are part of a history).
+    Valid arguments are discovered on the unpatched file."""
+    o = Obj(fx['data'])
+    cus = list(o.di.iter_CUs())
+    cu = cus[max(0, len(cus) - 2)]
+    sec = o.ef.get_section_by_name('.debug_info')
+    pos = sec['sh_offset'] + cu.cu_offset + (12 if cu.structs.dwarf_format == 64 else 4)
+    data = bytearray(fx['data'])
+    data[pos:pos + 2] = (6).to_bytes(2, 'little' if o.ef.little_endian else 'big')
+    return {'data': bytes(data), 'discover_data': fx['data'], 'bad_cu': cu.cu_offset}
+
+
 def _count(d):
     return 1 + sum(_count(k) for k in d.get('kids', []))
 
@@ -148,8 +164,8 @@ def discover(fx):
     """valid arguments of this fixture, from a fresh object"""
     if fx['args'] is not None:
         return fx['args']
-    o = Obj(fx['data'])
-    a = {'nsec': o.ef.num_sections(), 'nseg': o.ef.num_segments(), 'cus': [], 'dies': [], 'refdies': [], 'sigs': [], 'names': []}
+    o = Obj(fx.get('discover_data', fx['data']))
+    a = {'nsec': o.ef.num_sections(), 'nseg': o.ef.num_segments(), 'cus': [], 'dies': [], 'refdies': [], 'sigs': [], 'names': [], 'nulls': []}
     a['names'] = [s.name for s in o.ef.iter_sections()][:12] + ['.absent']
     a['symtabs'] = [i for i, s in enumerate(o.ef.iter_sections()) if type(s).__name__ == 'SymbolTableSection']
     a['symnames'] = []
@@ -162,6 +178,9 @@ def discover(fx):
             a['cus'].append((cu.cu_offset, cu.size))
             for d in cu.iter_DIEs():
                 if d.is_null():
+                    # the null entries that iteration yields have offsets a caller may come back to, too
+                    if len(a['nulls']) < 40:
+                        a['nulls'].append(d.offset)
                     continue
                 n += 1
                 if n <= 400:
@@ -275,6 +294,10 @@ def _apply(o, a, op):
         return dump.die_key(di.get_DIE_from_refaddr(a['dies'][x % len(a['dies'])]))
     if k == 'parent':
         return dump.die_key(di.get_DIE_from_refaddr(a['dies'][x % len(a['dies'])]).get_parent())
+    if k == 'null_refaddr':
+        return dump.die_key(di.get_DIE_from_refaddr(a['nulls'][x % len(a['nulls'])]))
+    if k == 'null_parent':
+        return dump.die_key(di.get_DIE_from_refaddr(a['nulls'][x % len(a['nulls'])]).get_parent())
     if k == 'children_all':
         return tuple(dump.die_key(d) for d in di.get_DIE_from_refaddr(a['dies'][x % len(a['dies'])]).iter_children())
     if k == 'siblings_all':
@@ -351,6 +374,8 @@ def op_available(a, op):
         return bool(a['cus'])
     if k in ('refaddr', 'parent', 'children_all', 'siblings_all'):
         return bool(a['dies'])
+    if k in ('null_refaddr', 'null_parent'):
+        return bool(a['nulls'])
     if k == 'from_attribute':
         return bool(a['refdies'])
     if k in ('by_sig8', 'iter_TUs_all'):
@@ -398,6 +423,10 @@ def run_history(ctx, fx, a, ops, case, o=None):
     o = o or Obj(fx['data'])
     bad = 0
     prev = 'start'
+    # A file with a unit the library cannot decode: a query that, on a fresh object, has to walk across that unit raises, while the same
+    # query may be answerable once a unit behind it is known.  Such queries have no history-independent answer to compare with; every
+    # query that a fresh object answers must still be answered identically after any history, failed queries included.
+    lenient = fx.get('bad_cu') is not None
     for op in ops:
         k = op[0]
         if not op_available(a, op):
@@ -416,8 +445,8 @@ def run_history(ctx, fx, a, ops, case, o=None):
         if k == 'gen_new':
             try:
                 it = make_gen(o, a, op[1], op[2])
-            except Exception as e:  # noqa
-                it = iter(())
+            except Exception as e:  # noqa   (raised while creating the iterator: it is the first thing the consumer sees, as in gen_truth)
+                it = _raiser(e)
             o.gens.append([op[1], op[2], 0, it, False])
             prev = 'gen_new'
             continue
@@ -438,6 +467,10 @@ def run_history(ctx, fx, a, ops, case, o=None):
                     got = ('exc', type(e).__name__)
                     g[4] = True
                 exp = want[g[2]] if g[2] < len(want) else ('stop',)
+                if lenient and exp[0] == 'exc':
+                    g[4] = True
+                    ctx.count('badver.undefined-skipped')
+                    break
                 if got != exp:
                     bad += 1
                     ctx.fail('history|suspended-generator|%s|%s' % (g[0], _kind(got, exp)),
@@ -451,12 +484,21 @@ def run_history(ctx, fx, a, ops, case, o=None):
             continue
         got = apply(o, a, op)
         exp = truth(fx, a, op)
+        if lenient and exp[0] == 'exc':
+            ctx.count('badver.undefined-skipped')
+            prev = k
+            continue
         if got != exp:
             bad += 1
             ctx.fail('history|op=%s|%s' % (k, _kind(got, exp)), 'op %r after %s: fresh object gives %s, this history %s' % (op, prev, _short(exp), _short(got)), case)
         # repeated identical query
         prev = k
     return o, bad
+
+
+def _raiser(e):
+    raise e
+    yield
 
 
 def _kind(got, exp):
@@ -508,7 +550,11 @@ def small_alphabet(a):
     if a['refdies']:
         ops += [['from_attribute', 0], ['from_attribute', len(a['refdies']) - 1]]
     if a['sigs']:
-        ops += [['by_sig8', 0], ['iter_TUs_all']]
+        ops += [['by_sig8', 0], ['iter_TUs_all'], ['gen_new', 'iter_TUs', 0]]
+        if len(a['sigs']) > 1:
+            ops += [['by_sig8', len(a['sigs']) - 1]]
+    if a['nulls']:
+        ops += [['null_parent', 0], ['null_parent', len(a['nulls']) - 1]]
     ops += [['section_by_name', 1], ['get_section', 3], ['symbol_by_name', 1], ['get_symbol', 2], ['notes'], ['cfi_kept', 1], ['cfi_kept', 2], ['cfi_kept', 3], ['cfi_kept', 0]]
     ops += [['repos', 1, 0], ['repos', 1, 3], ['repos', 0, 1], ['gen_new', 'iter_DIEs', 0], ['gen_new', 'children', 0], ['gen_new', 'iter_CUs', 0], ['gen_adv', 0, 0], ['gen_adv', 1, 1]]
     if any(op[0] == 'line_program' for op in ops) is False and a.get('has_lines'):
@@ -582,13 +628,15 @@ def run_case(ctx, case):
     for k in set(kinds):
         ctx.count('op.' + k)
     ctx.count('fixture.%s' % case['fixture'][0])
+    if len(case['fixture']) > 3:
+        ctx.count('fixture.%s' % case['fixture'][3])
     ctx.case((case['fixture'], ops), adv and len(set(kinds)) >= 3, {'fixture': case['fixture'], 'n_ops': len(ops), 'first_ops': ops[:10]})
 
 
 QUERY_OPS = ['num_sections', 'get_section', 'section_by_name', 'section_data', 'get_segment', 'notes', 'get_symbol', 'symbol_by_name', 'get_CU_at',
              'get_CU_containing', 'top_DIE', 'refaddr', 'parent', 'children_all', 'siblings_all', 'from_attribute', 'iter_DIEs_all', 'iter_CUs_all',
              'by_sig8', 'iter_TUs_all', 'line_program', 'cfi', 'eh_cfi', 'aranges', 'pubnames', 'cfi_kept', 'dyn_tags', 'dyn_num_symbols',
-             'dyn_symbol_by_name', 'dyn_symbols', 'loclists_iter', 'rnglists_iter']
+             'dyn_symbol_by_name', 'dyn_symbols', 'loclists_iter', 'rnglists_iter', 'null_refaddr', 'null_parent']
 
 CORPUS = ['test/testfiles_for_unittests/lib_versioned64.so.1.elf', 'test/testfiles_for_unittests/dwarf_test_versions_mix.elf',
           'test/testfiles_for_unittests/simple_gcc.elf.arm', 'test/testfiles_for_unittests/dwarf_v5ops.so.elf',
@@ -601,7 +649,8 @@ def corpus_fixtures():
 
 
 def strategy(tier):
-    fixtures = [['gen', i, 'tree'] for i in range(1, 9)] + [['gen', i, 'lines'] for i in range(1, 5)] + [['corpus', f] for f in corpus_fixtures()]
+    fixtures = ([['gen', i, 'tree'] for i in range(1, 9)] + [['gen', i, 'lines'] for i in range(1, 5)] + [['gen', i, 'tree', 'badver'] for i in (1, 5, 7)] +
+                [['corpus', f] for f in corpus_fixtures()])
     query = st.builds(lambda k, x: [k, x], st.sampled_from(QUERY_OPS), st.integers(0, 500))
     repos = st.builds(lambda s, p: ['repos', s, p], st.integers(0, 7), st.integers(0, 100000))
     gnew = st.builds(lambda k, x: ['gen_new', k, x], st.sampled_from(GEN_KINDS), st.integers(0, 500))
@@ -614,7 +663,7 @@ def strategy(tier):
 def sweep(tier):
     """deterministic long histories: every query op once in forward and once in reverse order, with a reposition between any two"""
     cases = []
-    fixtures = [['gen', i, 'tree'] for i in range(1, 5)] + [['gen', 1, 'lines']] + [['corpus', f] for f in corpus_fixtures()]
+    fixtures = [['gen', i, 'tree'] for i in range(1, 5)] + [['gen', 1, 'lines'], ['gen', 1, 'tree', 'badver'], ['gen', 2, 'tree', 'badver']] + [['corpus', f] for f in corpus_fixtures()]
     for f in fixtures:
         for order in (1, -1):
             ops = []
@@ -642,7 +691,7 @@ def floors(ctx):
     out = ['operation never exercised: ' + k for k in QUERY_OPS if c['op.' + k] == 0 and k not in ('aranges', 'pubnames')]
     if c['exhaustive.states'] < 50:
         out.append('exhaustive exploration reached only %d abstract states' % c['exhaustive.states'])
-    for k in ('fixture.gen', 'fixture.corpus'):
+    for k in ('fixture.gen', 'fixture.corpus', 'fixture.badver'):
         if c[k] == 0:
             out.append('no history on ' + k)
     return out
